@@ -21,7 +21,7 @@ from copy import copy
 from decimal import Decimal, DecimalException, localcontext
 from functools import cmp_to_key
 from string import ascii_letters
-from typing import cast, Optional, Union, NoReturn
+from typing import Any, cast, Optional, Union, NoReturn
 from urllib.parse import urlsplit, quote as urllib_quote
 
 import elementpath.aliases as ta
@@ -1564,23 +1564,19 @@ def evaluate__lang(self: XPathFunction, context: ta.ContextType = None) -> bool:
     if not isinstance(item, ElementNode):
         raise self.error('XPTY0004')
     elif isinstance(item, EtreeElementNode):
-        try:
-            attr = item.value.attrib[XML_LANG]
-        except KeyError:
-            if len(self) > 1 or context is None:
-                return False
-
-            for elem in copy(context).iter_ancestors():  # the caller's focus stays where it is
-                if isinstance(elem, EtreeElementNode):
-                    if XML_LANG in elem.value.attrib:
-                        lang = cast(str, elem.value.attrib[XML_LANG])
-                        break
-            else:
-                return False
+        # the xml:lang of the nearest ancestor-or-self element that has one (of $node in the 2-argument form)
+        node: Any = item
+        while node is not None:
+            if isinstance(node, EtreeElementNode) and XML_LANG in node.value.attrib:
+                break
+            node = node.parent
         else:
-            if not isinstance(attr, str):
-                return False
-            lang = attr.strip()
+            return False
+
+        attr = node.value.attrib[XML_LANG]
+        if not isinstance(attr, str):
+            return False
+        lang = attr.strip()
 
         test_lang: str = self.get_argument(context, cls=str)
         if test_lang is None:
